@@ -1083,6 +1083,39 @@ theorem convertPatchesList_eq_core (dflt : α) (l : List (NDArr α)) (C h w : Na
       simp only [convElem, this, if_true]
 
 
+theorem convert_inner_idx (dflt : α) (l : List (NDArr α)) (k p : Nat) (A : Except Err (NDArr α)) : ∀ m,
+    (List.range m).foldl (convertStep dflt l p) (A, p * k + 0) =
+      ((List.range m).foldl (fun A o => Np.assignEntry dflt A p o l (p * k + o)) A, p * k + m) := by
+  intro m
+  induction m with
+  | zero => rfl
+  | succ m ih =>
+    rw [List.range_succ, List.foldl_append, List.foldl_append, ih]
+    simp only [List.foldl_cons, List.foldl_nil, convertStep, Nat.add_assoc]
+
+theorem convert_outer_idx (dflt : α) (l : List (NDArr α)) (k : Nat) (A : Except Err (NDArr α)) : ∀ m,
+    (List.range m).foldl (fun st p => (List.range k).foldl (convertStep dflt l p) st) (A, 0) =
+      ((List.range m).foldl (fun A p => (List.range k).foldl (fun A o => Np.assignEntry dflt A p o l (p * k + o)) A) A,
+        m * k) := by
+  intro m
+  induction m with
+  | zero => simp
+  | succ m ih =>
+    rw [List.range_succ, List.foldl_append, List.foldl_append, ih]
+    simp only [List.foldl_cons, List.foldl_nil]
+    have := convert_inner_idx dflt l k m
+      ((List.range m).foldl (fun A p => (List.range k).foldl (fun A o => Np.assignEntry dflt A p o l (p * k + o)) A) A) k
+    simp only [Nat.add_zero] at this
+    rw [this, Nat.succ_mul]
+
+/-- the running index of `_convert_patches_list_to_single_array` is `p * n_offsets + o`: the spelling with a
+counter and the spelling with the computed index are the same function, for all arguments -/
+theorem convertPatchesListIdx_eq (dflt : α) (l : List (NDArr α)) (n : Nat) :
+    convertPatchesListIdx dflt l n = convertPatchesList dflt l n := by
+  unfold convertPatchesListIdx convertPatchesList
+  simp only [Py.forLoop_eq_foldl, convert_outer_idx]
+
+
 /-! ### Image.extract_patches / set_patches (the public entry points) -/
 
 theorem row_WF (a : NDArr α) (n : Nat) (s : List Nat) (hs : a.shape = n :: s) (hwf : a.WF) (i : Nat) (hi : i < n) :
